@@ -86,6 +86,90 @@ def get_run(f):
     return _RUN[k]
 
 
+def _owner_fn(bid):
+    """closures count as their enclosing function"""
+    while "::{closure#" in bid:
+        bid = bid[:bid.rindex("::{closure#")]
+    return bid
+
+
+def requirement(f, rq):
+    """machine-checked side condition of a reviewed entry -> (holds, text).  Kinds:
+      ctor-only-in  {adt, variant?, fns}   values of the type (variant) are built in the listed functions only
+      callers-only  {fn, callers}          every call of fn in the crate sits in one of the listed functions
+      const-arg     {fn, arg}              every call of fn passes a constant as argument number arg (0-based)
+      cmp-const     {fn, ops, const, min}  fn contains at least `min` comparisons of the given kinds with the constant
+      variants-subset {producer, consumer, adt}  every variant the producer's match names has an arm in the consumer's match"""
+    k = rq["kind"]
+    if k == "ctor-only-in":
+        bad = set()
+        n = 0
+        for bid, b in f.bodies.items():
+            for i, j, st in F.stmts(b):
+                if st[0] == "assign" and st[2][0] == "aggregate" and st[2][1].get("adt") == rq["adt"] and rq.get("variant") in (None, st[2][1].get("variant")):
+                    n += 1
+                    if _owner_fn(bid) not in rq["fns"]:
+                        bad.add(_owner_fn(bid))
+        what = rq["adt"] + ("::" + rq["variant"] if rq.get("variant") else "")
+        if bad:
+            return False, "%s is also built in %s" % (what, ", ".join(sorted(bad)))
+        return True, "%s is built in %s only (%d sites)" % (what, ", ".join(rq["fns"]), n)
+    if k in ("callers-only", "const-arg"):
+        bad = set()
+        n = 0
+        for bid, b in f.bodies.items():
+            for bi, t in F.calls(b):
+                if (t.get("resolved") or t.get("callee")) == rq["fn"] or t.get("callee") == rq["fn"]:
+                    n += 1
+                    if k == "callers-only" and _owner_fn(bid) not in rq["callers"]:
+                        bad.add(_owner_fn(bid))
+                    if k == "const-arg" and t["args"][rq["arg"]][0] != "const":
+                        from flow import Flow
+                        l = F.op_local(t["args"][rq["arg"]])
+                        ats = Flow(b).origins(l) if l is not None else []
+                        if not ats or not all(a[0] == "const" for a in ats):
+                            bad.add(_owner_fn(bid))
+        if bad:
+            return False, ("%s is also called from %s" if k == "callers-only" else "%s is called with a computed argument in %s") % (rq["fn"], ", ".join(sorted(bad)))
+        if n == 0 and k == "const-arg":
+            return True, "%s has no callers" % rq["fn"]
+        return True, ("%s is called from %s only" % (rq["fn"], ", ".join(rq["callers"]))) if k == "callers-only" else "%s gets a constant argument at all %d call sites" % (rq["fn"], n)
+    if k == "cmp-const":
+        b = f.body(rq["fn"])
+        if b is None:
+            return False, "%s not found" % rq["fn"]
+        n = 0
+        for i, j, st in F.stmts(b):
+            if st[0] == "assign" and st[2][0] == "binop" and st[2][1] in rq["ops"] and rq["const"] in (F.const_int(st[2][2]), F.const_int(st[2][3])):
+                n += 1
+        if n < rq["min"]:
+            return False, "%s compares with %d by %s only %d time(s) (reviewed: %d)" % (rq["fn"], rq["const"], "/".join(rq["ops"]), n, rq["min"])
+        return True, "%s has %d %s-comparisons with %d" % (rq["fn"], n, "/".join(rq["ops"]), rq["const"])
+    if k == "variants-subset":
+        def arms_of(fn):
+            b = f.body(fn)
+            if b is None:
+                return None
+            out = set()
+            for bb in b["blocks"]:
+                t = bb["term"]
+                if t["k"] != "switch":
+                    continue
+                dl = F.op_local(t["discr"])
+                for st in bb["stmts"]:
+                    if st[0] == "assign" and st[1] == [dl] and st[2][0] == "discr" and rq["adt"] in b["locals"][st[2][1][0]]["s"]:
+                        out |= {a[0] for a in t["arms"]}
+            return out
+        pa, ca = arms_of(rq["producer"]), arms_of(rq["consumer"])
+        if pa is None or ca is None or not pa or not ca:
+            return False, "the match on %s was not found in %s / %s" % (rq["adt"], rq["producer"], rq["consumer"])
+        names = {v["vi"]: v["name"] for v in f.adts.get(rq["adt"], {}).get("variants", [])}
+        if pa - ca:
+            return False, "%s hands out %s, which %s does not handle" % (rq["producer"], ", ".join(sorted(names.get(x, str(x)) for x in pa - ca)), rq["consumer"])
+        return True, "every %s variant %s names (%d) has an arm in %s" % (rq["adt"], rq["producer"], len(pa), rq["consumer"])
+    return False, "unknown requirement kind %s" % k
+
+
 def report_sites(ctx, run, rule, cats, prop, what):
     """every open site of the categories is covered by a table entry of this property (count not exceeded) or is a violation"""
     tab = run.tabled()
@@ -121,16 +205,26 @@ def report_sites(ctx, run, rule, cats, prop, what):
     for (fn, site), ss in sorted(groups.items()):
         e = tab.get((fn, site, prop))
         key = "%s#%s" % (fn, site)
-        if e is not None and len(ss) <= e["count"]:
+        broken = []
+        if e is not None:
+            for rq in e.get("requires", []):
+                okq, whyq = requirement(run.f, rq)
+                if not okq:
+                    broken.append(whyq)
+        if e is not None and len(ss) <= e["count"] and not broken:
             n_tab += len(ss)
-            ctx.ok(rule, key, "reviewed: " + e["reason"])
+            ctx.ok(rule, key, "reviewed: " + e["reason"] + ("".join(" [checked: %s]" % requirement(run.f, rq)[1] for rq in e.get("requires", []))))
             continue
         why = ss[0].reason
         extra = ""
-        if e is not None:
+        if e is not None and broken:
+            extra = " - the reviewed reason (\"%s\") rests on a fact that no longer holds: %s" % (e["reason"][:160], "; ".join(broken))
+        elif e is not None:
             extra = " (%d such sites in this function, %d reviewed)" % (len(ss), e["count"])
         ctx.bad(rule, key, "%s: %s%s" % (site, why, extra), ss[0].span, path=run.cg.path_to(run.parent, fn))
     ctx.count("%s sites covered by the reviewed table" % what, n_tab)
+    ctx.count("side conditions of reviewed entries re-checked (constructors / callers / constant arguments)",
+              sum(len(e.get("requires", [])) for (fn2, site2, pr2), e in tab.items() if pr2 == prop))
     # stale table entries are reported as notes (never as violations: removing a panic site is fine)
     for (fn, site, pr), e in tab.items():
         ecat = "explicit" if site.startswith(("panic:", "unwrap:")) else "access"
